@@ -117,7 +117,7 @@ def names_check(pid, cases_q, cases_t, rule, assumptions, exhaustive=False, min_
     if pid == "C14":   # the enumeration is deterministic: replaying means running it again
         rp = lambda path: [[os.path.join(BIN, "names.exc"), "--prop", "C14", "--seed", "1", "--cases", "400", "--out", "/dev/null", "--faildir", os.path.join(BUILD, "work", "C14_replay")]]
     else:
-        rp = lambda path: [[os.path.join(BIN, "names.exc"), "--replay", path]]
+        rp = lambda path: [[os.path.join(BIN, "fuzz_names.asanexc"), path]] if os.path.basename(path).split("@")[-1].startswith("crash-") else [[os.path.join(BIN, "names.exc"), "--replay", path]]
     return dict(id=pid, variants=["exc"], bins=["names.exc"], workers=workers, replay_argv=rp, rule=rule, assumptions=assumptions, exhaustive=exhaustive,
                 min_nontrivial={"quick": min_nt[0], "thorough": min_nt[1]}, timeout={"quick": 600, "thorough": 2400})
 
@@ -312,7 +312,9 @@ def _c13_with_fuzzer():
                     note = open(os.path.join(j["faildir"], "fail_C13.txt")).read()[:300]
                 except OSError:
                     pass
-                out.append(("libFuzzer: " + (note or "sanitizer report, see stderr.txt"), f if os.path.exists(f) else None))
+                if not os.path.exists(f):     # a sanitizer abort leaves no semantic failure file: the artifact itself is the reproduction
+                    f = sorted(os.path.join(j["art"], a) for a in os.listdir(j["art"]) if a.startswith("crash-"))[0]
+                out.append(("libFuzzer: " + (note or "sanitizer report in " + os.path.join(j["faildir"], "stderr.txt")), f))
         return out
     base["workers"] = workers
     base["collect"] = collect
